@@ -1478,15 +1478,21 @@ def merge_states(states, interp=None):
 
 def message_only_start(stmts):
     """A block that ends in `raise`: the maximal run of statements before the raise that only
-    build the exception message (they store only to local names, contain no return / raise /
-    yield / attribute or subscript store / del).  They are skipped — assumption A-MSG: code
+    build the exception message (they store only to local names, contain no expression statement,
+    return / raise / yield / attribute or subscript store / del; a bare `raise` has no message).  They are skipped — assumption A-MSG: code
     that only builds the text of an exception message is pure and does not raise."""
     if not stmts or not isinstance(stmts[-1], ast.Raise) or len(stmts) == 1:
         return None
+    if stmts[-1].exc is None:
+        return None          # a bare re-raise builds no message: what precedes it is clean-up code
     k = len(stmts) - 1
     while k > 0:
         s = stmts[k - 1]
-        ok = isinstance(s, (ast.Assign, ast.AugAssign, ast.If, ast.For, ast.Expr))
+        # expression statements (calls made for their effect) are message construction only when
+        # they are method calls on a local that the run itself initialises with a fresh literal
+        # (`items = []` … `items.append(text)`): checked below
+        ok = isinstance(s, (ast.Assign, ast.AugAssign, ast.If, ast.For)) \
+            and all(_local_method_call(n) is not None for n in ast.walk(s) if isinstance(n, ast.Expr))
         if ok and _escaping_jump(s):
             ok = False
         if ok:
@@ -1501,7 +1507,29 @@ def message_only_start(stmts):
         if not ok:
             break
         k -= 1
+    # receivers of effectful calls must be fresh locals of the run
+    while k < len(stmts) - 1:
+        run = stmts[k:-1]
+        fresh = set()
+        for s in run:
+            for n in ast.walk(s):
+                if isinstance(n, ast.Assign) and len(n.targets) == 1 and isinstance(n.targets[0], ast.Name) \
+                        and isinstance(n.value, (ast.List, ast.Dict, ast.Set, ast.Constant, ast.JoinedStr)):
+                    fresh.add(n.targets[0].id)
+        bad = [i for i, s in enumerate(run)
+               if any(isinstance(n, ast.Expr) and _local_method_call(n) not in fresh for n in ast.walk(s))]
+        if not bad:
+            break
+        k += bad[-1] + 1
     return k if k < len(stmts) - 1 else None
+
+
+def _local_method_call(n):
+    """`name.method(...)` as an expression statement -> name, else None"""
+    v = n.value
+    if isinstance(v, ast.Call) and isinstance(v.func, ast.Attribute) and isinstance(v.func.value, ast.Name):
+        return v.func.value.id
+    return None
 
 
 def _escaping_jump(s, depth=0):
